@@ -11,6 +11,7 @@ import (
 	"encoding/json"
 	"errors"
 	"fmt"
+	"net"
 	"sort"
 	"strings"
 	"time"
@@ -88,6 +89,7 @@ type Result struct {
 	Csi int             `json:"csi"`
 	Q   json.RawMessage `json:"q"`
 	A   interface{}     `json:"a"`
+	V   map[string]int  `json:"v"` // API versions of the requests the fake brokers received for this query (coverage only)
 }
 
 var apiByName = map[string]int16{"listoffsets": fakekafka.ListOffsets, "offsetfetch": fakekafka.OffsetFetch,
@@ -96,9 +98,15 @@ var apiByName = map[string]int16{"listoffsets": fakekafka.ListOffsets, "offsetfe
 // Error classes in the answers: 0 no error, n = kafka.Error(n) (so -1 is kafka.Unknown),
 // -1000 Seek's "whence must be one of" error, -1001 anything else (text in emsg).
 const (
-	errWhence = -1000
-	errOther  = -1001
+	errWhence  = -1000
+	errOther   = -1001
+	errTimeout = -1002 // a time-out of the harness' own generous deadlines: never judged (see guard)
 )
+
+func isTimeout(err error) bool {
+	var ne net.Error
+	return errors.Is(err, context.DeadlineExceeded) || (errors.As(err, &ne) && ne.Timeout()) || strings.Contains(err.Error(), "i/o timeout")
+}
 
 func errCode(err error) int {
 	var ke kafka.Error
@@ -109,6 +117,8 @@ func errCode(err error) int {
 		return int(ke)
 	case strings.Contains(err.Error(), "whence must be one of"):
 		return errWhence
+	case isTimeout(err):
+		return errTimeout
 	}
 	return errOther
 }
@@ -197,9 +207,13 @@ func build(job *Job) *env {
 		}
 		n.SetDown(fmt.Sprintf("b%d:9092", id), mode)
 	}
-	tr := &kafka.Transport{Dial: n.DialContext, DialTimeout: 150 * time.Millisecond, ClientID: "offdrv", MetadataTTL: time.Hour}
+	// Refused dials fail at once, so the dial time-out (which also covers the ApiVersions handshake) can be
+	// generous: a loaded machine must never turn into an answer. A black-holed address makes every request
+	// routed to it wait for the whole time-out, so such cluster states get few queries (one job each).
+	dialTimeout := 15 * time.Second
+	tr := &kafka.Transport{Dial: n.DialContext, DialTimeout: dialTimeout, ClientID: "offdrv", MetadataTTL: time.Hour}
 	boot := fmt.Sprintf("b%d:9092", job.CS.Brokers[0].ID)
-	return &env{job: job, net: n, cl: cl, tr: tr, client: &kafka.Client{Addr: kafka.TCP(boot), Transport: tr, Timeout: 5 * time.Second}}
+	return &env{job: job, net: n, cl: cl, tr: tr, client: &kafka.Client{Addr: kafka.TCP(boot), Transport: tr, Timeout: 40 * time.Second}}
 }
 
 func setGroup(cl *fakekafka.Cluster, id string, coord int, committed []Commit) {
@@ -249,7 +263,13 @@ func RunJob(job *Job) (out []Result) {
 	out = make([]Result, 0, len(job.Queries))
 	for i := range job.Queries {
 		q := &job.Queries[i]
-		out = append(out, Result{ID: q.ID, API: q.API, Csi: job.Csi, Q: q.Q, A: e.guard(q)})
+		before := len(e.cl.Journal())
+		a := e.guard(q)
+		seen := map[string]int{}
+		for _, je := range e.cl.Journal()[before:] {
+			seen[fakekafka.ApiNames[je.ApiKey]] = int(je.Version)
+		}
+		out = append(out, Result{ID: q.ID, API: q.API, Csi: job.Csi, Q: q.Q, A: a, V: seen})
 	}
 	return out
 }
@@ -270,13 +290,20 @@ func (e *env) guard(q *Query) (ans interface{}) {
 				ch <- map[string]interface{}{"panic": true, "hang": false, "emsg": fmt.Sprint(r)}
 			}
 		}()
-		ch <- e.run(q)
+		a := e.run(q)
+		if b, err := json.Marshal(a); err == nil && (strings.Contains(string(b), `"err":-1002`) || strings.Contains(string(b), `"cerr":-1002`)) {
+			blackhole := len(e.job.CS.Down) > 0 && e.job.CS.DownMode == "blackhole"
+			if !blackhole {
+				panic(driverErr("time-out of the harness deadlines (machine overloaded?): " + string(b)))
+			}
+		}
+		ch <- a
 	}()
 	select {
 	case a := <-ch:
 		return a
-	case <-time.After(20 * time.Second):
-		return map[string]interface{}{"panic": false, "hang": true, "emsg": "no answer within 20 s"}
+	case <-time.After(120 * time.Second):
+		return map[string]interface{}{"panic": false, "hang": true, "emsg": "no answer within 120 s"}
 	}
 }
 
@@ -341,7 +368,7 @@ func (e *env) seek(q *Query) interface{} {
 		panic(driverErr(err.Error()))
 	}
 	defer c.Close()
-	c.SetDeadline(time.Now().Add(10 * time.Second))
+	c.SetDeadline(time.Now().Add(40 * time.Second))
 	a.Ioff, a.Iwh = c.Offset()
 	for _, s := range sq.Steps {
 		wh := s.Whence
@@ -384,7 +411,7 @@ func (e *env) readOffset(q *Query) interface{} {
 		panic(driverErr(err.Error()))
 	}
 	defer c.Close()
-	c.SetDeadline(time.Now().Add(10 * time.Second))
+	c.SetDeadline(time.Now().Add(40 * time.Second))
 	a := readOffA{}
 	switch rq.Kind {
 	case "first":
@@ -455,7 +482,7 @@ func (e *env) readPartitions(q *Query) interface{} {
 		panic(driverErr(err.Error()))
 	}
 	defer c.Close()
-	c.SetDeadline(time.Now().Add(10 * time.Second))
+	c.SetDeadline(time.Now().Add(40 * time.Second))
 	ps, err := c.ReadPartitions(rq.Topics...)
 	a := readPartsA{Err: errCode(err), Emsg: errMsg(err), Parts: []partA{}}
 	for _, p := range ps {
@@ -509,7 +536,7 @@ func (e *env) listOffsets(q *Query) interface{} {
 		}
 		req.Topics[r.T] = append(req.Topics[r.T], or)
 	}
-	ctx, cancel := context.WithTimeout(context.Background(), 10*time.Second)
+	ctx, cancel := context.WithTimeout(context.Background(), 40*time.Second)
 	defer cancel()
 	res, err := e.client.ListOffsets(ctx, req)
 	a := loA{Err: errCode(err), Emsg: errMsg(err), Parts: []loPartA{}}
@@ -568,7 +595,7 @@ func (e *env) fetchOffsets(group string, topics []tpList) ofA {
 	for _, t := range topics {
 		req.Topics[t.T] = append(req.Topics[t.T], t.Parts...)
 	}
-	ctx, cancel := context.WithTimeout(context.Background(), 10*time.Second)
+	ctx, cancel := context.WithTimeout(context.Background(), 40*time.Second)
 	defer cancel()
 	res, err := e.client.OffsetFetch(ctx, req)
 	a := ofA{Err: errCode(err), Emsg: errMsg(err), Parts: []ofPartA{}}
@@ -635,7 +662,7 @@ func (e *env) commit(q *Query) interface{} {
 	for _, c := range cq.Commits {
 		req.Topics[c.T] = append(req.Topics[c.T], kafka.OffsetCommit{Partition: c.P, Offset: c.Off, Metadata: "m"})
 	}
-	ctx, cancel := context.WithTimeout(context.Background(), 10*time.Second)
+	ctx, cancel := context.WithTimeout(context.Background(), 40*time.Second)
 	defer cancel()
 	res, err := e.client.OffsetCommit(ctx, req)
 	a := commitA{Cerr: errCode(err), Emsg: errMsg(err), Cparts: []ccPartA{}}
@@ -692,7 +719,7 @@ func (e *env) metadata(q *Query) interface{} {
 	if mq.All {
 		req.Topics = nil
 	}
-	ctx, cancel := context.WithTimeout(context.Background(), 10*time.Second)
+	ctx, cancel := context.WithTimeout(context.Background(), 40*time.Second)
 	defer cancel()
 	res, err := e.client.Metadata(ctx, req)
 	a := metaA{Err: errCode(err), Emsg: errMsg(err), Brokers: []brokerA{}, Topics: []metaTopicA{}}
